@@ -86,6 +86,7 @@ def check(config, events, live=None, nticks=None):
         if e.get("ev") == "plugin" and e.get("m") == "init":
             template.add(e["inst"])
     states = {}  # (ri, cg) -> InstState
+    used_insts = set()  # plugin instance numbers that ever belonged to a per-cgroup instance
 
     def bad(prop, rule, disc, detail, st=None):
         V.append((prop, rule, disc, detail))
@@ -166,8 +167,16 @@ def check(config, events, live=None, nticks=None):
                         continue
                     if st.insts is None:
                         st.insts = dict(insts)
-                        # fresh state => fresh instance numbers, never seen in another state
+                        # fresh state => plugin objects nobody used before, with their own counters at zero
+                        reused = sorted(v2 for v2 in insts.values() if v2 in used_insts)
+                        stale_calls = sorted((e["id"], e["call"]) for e in mine if e.get("call", 0) != 0)
+                        if reused or stale_calls:
+                            bad("C11", "stale-instance-after-absence", "reused-objects" if reused else "old-state",
+                                "tick %d ruleset %s cg %s: the cgroup was not matched on the previous tick, but it is evaluated with plugin instances %s that already served an earlier incarnation (calls so far %s)" % (ti, r.name, cg, reused, stale_calls), st)
+                            continue
+                        used_insts.update(insts.values())
                     else:
+                        used_insts.update(insts.values())
                         for k, v in insts.items():
                             if k in st.insts and st.insts[k] != v:
                                 bad("C11", "instance-stable", "", "tick %d ruleset %s cg %s: plugin %s instance changed %s -> %s while cgroup stayed matched" % (ti, r.name, cg, k, st.insts[k], v), st)
